@@ -110,6 +110,14 @@ func runProperty(repo, lib, prop, tier string) int {
 	}
 	ps := propSpecs[prop]
 	verifDir := filepath.Dir(strings.TrimRight(lib, "/"))
+	if d := os.Getenv("VERIF_OUT_DIR"); d != "" {
+		// self-test runs write their evidence and replay files elsewhere
+		os.MkdirAll(filepath.Join(d, "lib"), 0o755)
+		for _, sub := range []string{"replay", "known_findings.json"} {
+			os.Symlink(filepath.Join(verifDir, sub), filepath.Join(d, sub))
+		}
+		verifDir = d
+	}
 	evPath := filepath.Join(verifDir, "evidence", prop+".json")
 	os.MkdirAll(filepath.Join(verifDir, "evidence", "replay"), 0o755)
 	if ps == nil {
